@@ -45,10 +45,21 @@ type dbScenario struct {
 	Seed     int64       `json:"seed"`
 	Split    bool        `json:"split"` // spread the tables of a version over two files
 	Text     bool        `json:"text"`
+	// KeepOrder: the tables are written in the order given (not shuffled); Reps: every script is generated this many
+	// times and every distinct text is judged (the generators walk Go maps)
+	KeepOrder bool `json:"keeporder"`
+	Reps      int  `json:"reps"`
 }
+
+var dbKeepOrder bool
 
 func dbRender(v []dbTable, rng *rand.Rand, split bool) map[string]string {
 	order := rng.Perm(len(v))
+	if dbKeepOrder {
+		for i := range order {
+			order[i] = i
+		}
+	}
 	files := map[string]*strings.Builder{"main.sysl": {}, "part.sysl": {}}
 	if split {
 		files["main.sysl"].WriteString("import part\n\n")
@@ -260,6 +271,7 @@ func runDbScript(in, out string, _ []string) error {
 			return err
 		}
 		rng := rand.New(rand.NewSource(sc.Seed*977 + int64(sc.ID)))
+		dbKeepOrder = sc.KeepOrder
 		begin := tr.Ev{"t": sc.ID, "e": "begin", "versions": sc.Versions}
 		texts := []map[string]string{}
 		mods := []*sysl.Module{}
@@ -297,12 +309,29 @@ func runDbScript(in, out string, _ []string) error {
 			}
 			w.Emit(ev)
 		}
+		// every distinct text of sc.Reps generations is judged
+		emitN := func(which string, a, b int, f func() dbGen) {
+			n := sc.Reps
+			if n < 1 {
+				n = 1
+			}
+			seen := map[string]bool{}
+			for i := 0; i < n; i++ {
+				g := f()
+				if key := g.pan + "\x00" + g.sql; !seen[key] {
+					seen[key] = true
+					emit(which, a, b, g)
+				}
+			}
+		}
 		for i, m := range mods {
 			m := m
-			emit("create", i+1, i+1, guarded(func() string {
-				v := database.MakeDatabaseScriptView("t", logger)
-				return v.GenerateDatabaseScriptCreate(m.GetApps()["Db"].GetTypes(), "postgres", "Db")
-			}))
+			emitN("create", i+1, i+1, func() dbGen {
+				return guarded(func() string {
+					v := database.MakeDatabaseScriptView("t", logger)
+					return v.GenerateDatabaseScriptCreate(m.GetApps()["Db"].GetTypes(), "postgres", "Db")
+				})
+			})
 		}
 		delta := func(a, b int) dbGen {
 			return guarded(func() string {
@@ -314,7 +343,8 @@ func runDbScript(in, out string, _ []string) error {
 			})
 		}
 		for i := 0; i+1 < len(mods); i++ {
-			emit("delta", i+1, i+2, delta(i, i+1))
+			i := i
+			emitN("delta", i+1, i+2, func() dbGen { return delta(i, i+1) })
 		}
 		for i := range mods {
 			emit("delta", i+1, i+1, delta(i, i))
